@@ -162,105 +162,25 @@ def operand_range_at(prog, a):
     return None
 
 
-def run(ctx):
+class _NoRule:
+    """stands in for a rule whose clauses are not wanted where a rule function is shared"""
+    def ok(self, *a, **k):
+        pass
+
+    def violation(self, *a, **k):
+        pass
+
+    def floor(self, *a, **k):
+        pass
+
+
+def publication_rule(ctx, r3, r5=None):
+    """what an FDT instance says about its own validity (r3) and what it lists (r5); r3 is shared with C16.R7"""
     prog = ctx.prog
-    ctx.explanation = (
-        "C10: XML well-formedness / escaping (quick-xml), set equality of listed objects over operation histories and the "
-        "'superseded before expiry' timing are NOT decided.  Decided: R1 the instance id is written only in new/publish, the "
-        "value assigned in publish lies in [0, 2^20-1], every queued instance is followed by the increment and carries the "
-        "pre-increment id; R2 every File attribute derives from the object's own field (shared with C01.R4); R3 Expires "
-        "depends on now and on the configured duration; R4 publish marks every listed file; R5 the file list comes from "
-        "`files` (FullFDT) or from the objects in transmission (other mode), selected by publish_mode.")
-    ctx.not_decided += ["XML well-formedness and escaping (quick-xml / serde)", "set equality of listed objects over all add/remove/publish histories",
-                        "an instance is superseded before it expires as a timing statement (R7 decides the renewal predicate's shape only)"]
-
-    # ---- R1 ----------------------------------------------------------------------------------
-    r1 = ctx.rule("C10.R1", "Fdt.fdtid: written only in Fdt::new (initial) and Fdt::publish; in publish the new value is in "
-                            "[0, 2^20-1] and equals (old + 1) masked; each push to fdt_transfer_queue is followed by the increment "
-                            "and the queued FileDesc was built with the pre-increment id", "WWF+E4+PAIR+ARG")
+    r5 = r5 or _NoRule()
     pub = prog.fn(FDT + "::publish")
-    ctx.analysed(pub.path)
-    rp = ranges.analyse(prog, pub)
     flow = Flow(pub.body)
-    sl = Slicer(pub.body)
-    incs = []
-    for a in field_accesses(prog, FDT, "fdtid"):
-        caller = a["func"].root().path
-        key = "%s %s Fdt.fdtid" % (caller, a["kind"])
-        if a["kind"] == "construct" and caller == FDT + "::new":
-            rng = operand_range_at(prog, a)
-            if rng is not None and rng[0] >= 0 and rng[1] <= 2 ** 20 - 1:
-                r1.ok(key, "initial value = %s in [%s, %s]" % (show(a["value"], 40), rng[0], rng[1]), loc(a["sp"]))
-            else:
-                r1.violation(key, "the first instance id is %s with range %s: a configured start id >= 2^20 is not reduced modulo 2^20 and spills into the "
-                                  "version bits (and beyond 2^24 into the HET) of EXT_FDT, which push_fdt ORs together without masking" % (show(a["value"], 40), rng), loc(a["sp"]))
-        elif a["kind"] == "assign" and caller == FDT + "::publish":
-            incs.append(a)
-            # range of the assigned value: evaluate at the assignment
-            st = rp.entry.get(a["bb"])
-            st = st.copy() if st else None
-            val = None
-            if st is not None:
-                blk = pub.body.blocks[a["bb"]]
-                for i, s2 in enumerate(blk.stmts):
-                    if i == a["idx"]:
-                        v, _ = (rp.operand(st, s2.rv.ops[0]) if s2.rv.k == "use" else (None, None))
-                        if s2.rv.k == "bin":
-                            x_, _ = rp.operand(st, s2.rv.ops[0])
-                            y_, _ = rp.operand(st, s2.rv.ops[1])
-                            v = rp.binop(s2.rv.j["op"], x_, y_, "u32")
-                        val = v
-                        break
-                    if s2.k == "assign":
-                        rp.assign(st, s2.lhs, s2.rv, a["bb"], s2.sp)
-            ex = sl.expand(a["value"])
-            shape = ex[0] == "bin" and ex[1] == "BitAnd" and "self.fdtid + 1" in show(ex)
-            if val is not None and val[0] >= 0 and val[1] <= 2 ** 20 - 1 and shape:
-                r1.ok(key, "new id in [%s, %s] = %s" % (val[0], val[1], show(ex, 60)), loc(a["sp"]))
-            elif val is None or val[1] > 2 ** 20 - 1:
-                r1.violation(key, "the id assigned in publish ranges over %s: it can leave the 20-bit EXT_FDT field (%s)" % (val, show(ex, 60)), loc(a["sp"]))
-            else:
-                r1.violation(key, "the id is not advanced as (old + 1) mod 2^20: %s" % show(ex, 80), loc(a["sp"]))
-        else:
-            r1.violation(key, "instance id written outside new/publish", loc(a["sp"]))
     pushes = [s for s, ai, mut in calls_on_field(prog, FDT, "fdt_transfer_queue", funcs=[pub]) if method_name(s) in ("push_back", "push_front", "insert")]
-    allpush = [s for s, ai, mut in calls_on_field(prog, FDT, "fdt_transfer_queue") if method_name(s) in ("push_back", "push_front", "insert", "extend", "append")]
-    for s in allpush:
-        caller = s.func.root().path
-        key = "%s queues an FDT instance" % caller
-        if caller != FDT + "::publish":
-            r1.violation(key, "FDT instance queued outside publish()", s.loc)
-            continue
-        incbbs = [a["bb"] for a in incs]
-        ok, w = flow.postdominated_by(s.bb, lambda b: b in incbbs) if s.bb not in incbbs else (True, None)
-        if ok and incs:
-            r1.ok(key, "followed by the id increment", s.loc)
-        else:
-            r1.violation(key, "an instance is queued on a path that does not advance the id: two different contents share one id", s.loc)
-    for s in call_sites(pub, lambda p, c: p == "sender::filedesc::FileDesc::new"):
-        arg = s.expr[2][3]
-        key = "publish FileDesc::new fdt_id argument"
-        pre = all(flow.dominates(s.bb, a["bb"]) and s.bb != a["bb"] for a in incs)
-        # the id may have been read into a local first (`let instance_id = self.fdtid;`): then the read is where that local is defined
-        if arg[0] == "aggr" and arg[2] == "Some" and len(arg[3]) == 1 and arg[3][0][0] == "var" and not arg[3][0][2] and show(sl.expand(arg)) == "Option::Some{0: self.fdtid}":
-            rd = [bb_ for (pj_, e_, bb_) in sl.var_defs().get(arg[3][0][1], []) if pj_ == ""]
-            if len(rd) == 1 and all(flow.dominates(rd[0], a["bb"]) for a in incs) and \
-                    not any(a["bb"] == rd[0] for a in incs):
-                arg = sl.expand(arg)
-                pre = True
-        if show(arg) == "Option::Some{0: self.fdtid}" and pre:
-            r1.ok(key, "Some(self.fdtid) read before the increment", s.loc)
-        else:
-            r1.violation(key, "queued instance carries %s%s" % (show(arg, 50), "" if pre else " read after the increment"), s.loc)
-    r1.floor(4, "id facts")
-    # wire side: push_fdt masks 20 bits / fdt_id argument is pkt.fdt_id
-    # ---- R2 ----------------------------------------------------------------------------------
-    c01.metadata_flow_sender(ctx, ctx.rule("C10.R2", c01.SENDER_FLOW_TEXT, "ARG/DEP"))
-
-    # ---- R3 / R5 -----------------------------------------------------------------------------
-    r3 = ctx.rule("C10.R3", "FdtInstance.expires depends on `now` and on self.duration (publish time + configured duration)", "DEP")
-    r5 = ctx.rule("C10.R5", "FdtInstance.file lists self.files in FullFDT mode and the objects in transmission otherwise; each entry is "
-                            "FileDesc::to_file_xml of the listed object; the instance's OTI attributes come from the session OTI", "DEP")
     gi = prog.fn(FDT + "::get_fdt_instance")
     ctx.analysed(gi.path)
     gs = Slicer(gi.body)
@@ -380,6 +300,108 @@ def run(ctx):
                              loc(a["sp"]))
         else:
             r3.violation(key, "last_publish = %s in %s: it must record the `now` of publish()" % (show(a["value"], 60), caller), loc(a["sp"]))
+
+
+def run(ctx):
+    prog = ctx.prog
+    ctx.explanation = (
+        "C10: XML well-formedness / escaping (quick-xml), set equality of listed objects over operation histories and the "
+        "'superseded before expiry' timing are NOT decided.  Decided: R1 the instance id is written only in new/publish, the "
+        "value assigned in publish lies in [0, 2^20-1], every queued instance is followed by the increment and carries the "
+        "pre-increment id; R2 every File attribute derives from the object's own field (shared with C01.R4); R3 Expires "
+        "depends on now and on the configured duration; R4 publish marks every listed file; R5 the file list comes from "
+        "`files` (FullFDT) or from the objects in transmission (other mode), selected by publish_mode.")
+    ctx.not_decided += ["XML well-formedness and escaping (quick-xml / serde)", "set equality of listed objects over all add/remove/publish histories",
+                        "an instance is superseded before it expires as a timing statement (R7 decides the renewal predicate's shape only)"]
+
+    # ---- R1 ----------------------------------------------------------------------------------
+    r1 = ctx.rule("C10.R1", "Fdt.fdtid: written only in Fdt::new (initial) and Fdt::publish; in publish the new value is in "
+                            "[0, 2^20-1] and equals (old + 1) masked; each push to fdt_transfer_queue is followed by the increment "
+                            "and the queued FileDesc was built with the pre-increment id", "WWF+E4+PAIR+ARG")
+    pub = prog.fn(FDT + "::publish")
+    ctx.analysed(pub.path)
+    rp = ranges.analyse(prog, pub)
+    flow = Flow(pub.body)
+    sl = Slicer(pub.body)
+    incs = []
+    for a in field_accesses(prog, FDT, "fdtid"):
+        caller = a["func"].root().path
+        key = "%s %s Fdt.fdtid" % (caller, a["kind"])
+        if a["kind"] == "construct" and caller == FDT + "::new":
+            rng = operand_range_at(prog, a)
+            if rng is not None and rng[0] >= 0 and rng[1] <= 2 ** 20 - 1:
+                r1.ok(key, "initial value = %s in [%s, %s]" % (show(a["value"], 40), rng[0], rng[1]), loc(a["sp"]))
+            else:
+                r1.violation(key, "the first instance id is %s with range %s: a configured start id >= 2^20 is not reduced modulo 2^20 and spills into the "
+                                  "version bits (and beyond 2^24 into the HET) of EXT_FDT, which push_fdt ORs together without masking" % (show(a["value"], 40), rng), loc(a["sp"]))
+        elif a["kind"] == "assign" and caller == FDT + "::publish":
+            incs.append(a)
+            # range of the assigned value: evaluate at the assignment
+            st = rp.entry.get(a["bb"])
+            st = st.copy() if st else None
+            val = None
+            if st is not None:
+                blk = pub.body.blocks[a["bb"]]
+                for i, s2 in enumerate(blk.stmts):
+                    if i == a["idx"]:
+                        v, _ = (rp.operand(st, s2.rv.ops[0]) if s2.rv.k == "use" else (None, None))
+                        if s2.rv.k == "bin":
+                            x_, _ = rp.operand(st, s2.rv.ops[0])
+                            y_, _ = rp.operand(st, s2.rv.ops[1])
+                            v = rp.binop(s2.rv.j["op"], x_, y_, "u32")
+                        val = v
+                        break
+                    if s2.k == "assign":
+                        rp.assign(st, s2.lhs, s2.rv, a["bb"], s2.sp)
+            ex = sl.expand(a["value"])
+            shape = ex[0] == "bin" and ex[1] == "BitAnd" and "self.fdtid + 1" in show(ex)
+            if val is not None and val[0] >= 0 and val[1] <= 2 ** 20 - 1 and shape:
+                r1.ok(key, "new id in [%s, %s] = %s" % (val[0], val[1], show(ex, 60)), loc(a["sp"]))
+            elif val is None or val[1] > 2 ** 20 - 1:
+                r1.violation(key, "the id assigned in publish ranges over %s: it can leave the 20-bit EXT_FDT field (%s)" % (val, show(ex, 60)), loc(a["sp"]))
+            else:
+                r1.violation(key, "the id is not advanced as (old + 1) mod 2^20: %s" % show(ex, 80), loc(a["sp"]))
+        else:
+            r1.violation(key, "instance id written outside new/publish", loc(a["sp"]))
+    pushes = [s for s, ai, mut in calls_on_field(prog, FDT, "fdt_transfer_queue", funcs=[pub]) if method_name(s) in ("push_back", "push_front", "insert")]
+    allpush = [s for s, ai, mut in calls_on_field(prog, FDT, "fdt_transfer_queue") if method_name(s) in ("push_back", "push_front", "insert", "extend", "append")]
+    for s in allpush:
+        caller = s.func.root().path
+        key = "%s queues an FDT instance" % caller
+        if caller != FDT + "::publish":
+            r1.violation(key, "FDT instance queued outside publish()", s.loc)
+            continue
+        incbbs = [a["bb"] for a in incs]
+        ok, w = flow.postdominated_by(s.bb, lambda b: b in incbbs) if s.bb not in incbbs else (True, None)
+        if ok and incs:
+            r1.ok(key, "followed by the id increment", s.loc)
+        else:
+            r1.violation(key, "an instance is queued on a path that does not advance the id: two different contents share one id", s.loc)
+    for s in call_sites(pub, lambda p, c: p == "sender::filedesc::FileDesc::new"):
+        arg = s.expr[2][3]
+        key = "publish FileDesc::new fdt_id argument"
+        pre = all(flow.dominates(s.bb, a["bb"]) and s.bb != a["bb"] for a in incs)
+        # the id may have been read into a local first (`let instance_id = self.fdtid;`): then the read is where that local is defined
+        if arg[0] == "aggr" and arg[2] == "Some" and len(arg[3]) == 1 and arg[3][0][0] == "var" and not arg[3][0][2] and show(sl.expand(arg)) == "Option::Some{0: self.fdtid}":
+            rd = [bb_ for (pj_, e_, bb_) in sl.var_defs().get(arg[3][0][1], []) if pj_ == ""]
+            if len(rd) == 1 and all(flow.dominates(rd[0], a["bb"]) for a in incs) and \
+                    not any(a["bb"] == rd[0] for a in incs):
+                arg = sl.expand(arg)
+                pre = True
+        if show(arg) == "Option::Some{0: self.fdtid}" and pre:
+            r1.ok(key, "Some(self.fdtid) read before the increment", s.loc)
+        else:
+            r1.violation(key, "queued instance carries %s%s" % (show(arg, 50), "" if pre else " read after the increment"), s.loc)
+    r1.floor(4, "id facts")
+    # wire side: push_fdt masks 20 bits / fdt_id argument is pkt.fdt_id
+    # ---- R2 ----------------------------------------------------------------------------------
+    c01.metadata_flow_sender(ctx, ctx.rule("C10.R2", c01.SENDER_FLOW_TEXT, "ARG/DEP"))
+
+    # ---- R3 / R5 -----------------------------------------------------------------------------
+    r3 = ctx.rule("C10.R3", "FdtInstance.expires depends on `now` and on self.duration (publish time + configured duration)", "DEP")
+    r5 = ctx.rule("C10.R5", "FdtInstance.file lists self.files in FullFDT mode and the objects in transmission otherwise; each entry is "
+                            "FileDesc::to_file_xml of the listed object; the instance's OTI attributes come from the session OTI", "DEP")
+    publication_rule(ctx, r3, r5)
     r3.floor(5, "expiry facts")
     r5.floor(5, "listing facts")
 
